@@ -3,7 +3,7 @@
 import json
 import os
 
-PATH = os.path.join(os.path.dirname(os.path.dirname(os.path.abspath(__file__))), "known_findings.json")
+PATH = os.environ.get("VERIF_KNOWN_FINDINGS") or os.path.join(os.path.dirname(os.path.dirname(os.path.abspath(__file__))), "known_findings.json")
 
 
 def load(prop):
